@@ -66,3 +66,21 @@ class SubC(Base):
         self.req = req
         self.d = d
         self.t = t
+
+
+class KwOnly(Base):
+    """Only free-form keyword arguments (no resolvable named parameter): an accepted value is class_path plus
+    dict_kwargs and never has init_args."""
+
+    def __init__(self, **kwargs):
+        super().__init__()
+        self.kwargs = kwargs
+
+
+class KwNamed(Base):
+    """A named Optional parameter whose default is not None, plus free-form keyword arguments."""
+
+    def __init__(self, size: Optional[int] = 1, **kwargs):
+        super().__init__()
+        self.size = size
+        self.kwargs = kwargs
